@@ -40,6 +40,10 @@ def call_oracle(sub, case):
         if getattr(sub, "nontermination_outcome", None):
             return sub.nontermination_outcome(case, e)
         return Outcome.inconclusive(f"nontermination:{e.loop}")
+    except (MemoryError, OSError) as e:
+        # resource exhaustion on a loaded machine is not a verdict about the property: counted, shown in the evidence, and turned
+        # into a harness error by the runner only if it is frequent (a background sweep once lost a task to such an exception)
+        return Outcome.inconclusive(f"resource_error:{type(e).__name__}")
 
 
 class Recorder:
